@@ -1,6 +1,7 @@
 """C19 — ordered map refines a first-insertion-order association list."""
 import json, os, subprocess, sys
 from verifkit.core import *
+from verifkit import gen_c19
 
 THEOREMS = [
     "Cog.OMap.C19_step_refines", "Cog.OMap.C19_run_refines", "Cog.OMap.C19_reachable",
@@ -11,6 +12,31 @@ THEOREMS = [
     "Cog.OMap.C19_unmarshal_existing_keys", "Cog.OMap.C19_no_panic", "Cog.OMap.C19_at_panics_iff",
     "Cog.OMap.C19_prefix_remove_panicked",
 ]
+# the method bodies of map.go, translated on this run (extract/xomap -> Cog.Gen.OMapSrc), equal the model
+SRC_THEOREMS = ["Cog.OMap.C19_src_" + m for m in
+                ("set", "get", "at", "has", "remove", "len", "iterate", "map", "filter", "values", "sort")] + [
+    "Cog.OMap.C19_source_refines_model"]
+PINS = os.path.join(VERIF, "checks", "c19.pins.json")   # sha256 of the functions that are NOT translated
+
+
+def source_tie(c):
+    """Regenerate Cog.Gen.OMapSrc from the current map.go.  A refusal of the translator is a broken
+    obligation (the C19_src_* theorems would otherwise be about a stale program)."""
+    ok, detail = gen_c19.regen()
+    c.oblige("translator extract/xomap accepts internal/orderedmap/map.go (Cog.Gen.OMapSrc regenerated)", ok, detail)
+    info = {"regen": detail[:300]}
+    if ok:
+        facts = json.load(open(gen_c19.OMAP_JSON))
+        info["translated"] = [{"name": m["name"], "sha256": m["hash"]} for m in facts["translated"]]
+        info["untranslated"] = facts["untranslated"]
+        pins = json.load(open(PINS)) if os.path.exists(PINS) else {}
+        changed = [u["name"] for u in facts["untranslated"] if pins.get(u["name"]) != u["hash"]]
+        # info only: these functions stay tied by the correspondence streams
+        info["untranslated_changed_since_pin"] = changed
+        if changed:
+            log("info: untranslated functions of map.go changed since checks/c19.pins.json:", ", ".join(changed))
+    c.cov["source_tie"] = info
+    return ok
 
 
 def shrink_ops(binary):
@@ -42,14 +68,23 @@ def main():
     c = Check("C19")
     c.trusted = [
         "Lean 4.33 kernel; axioms per theorem are listed in obligation_list (subset of propext, Classical.choice, Quot.sound)",
-        "hand-written model lean/Cog/OMap/Model.lean of internal/orderedmap/map.go, tied by the omap-* correspondence streams",
+        "hand-written model lean/Cog/OMap/Model.lean of internal/orderedmap/map.go, tied (a) by the C19_src_* theorems: the bodies of Set/Get/At/Has/Remove/Len/Iterate/Map/Filter/Values/Sort, translated from the current map.go on every run, compute the model's functions; (b) by the omap-* correspondence streams (all functions incl. the untranslated MarshalJSON/UnmarshalJSON/FromMap/Equal/New)",
+        "the translator extract/xomap (go/ast, syntactic, refuses unknown forms, canonical renaming p0../x0.. with shadowing refused) and the Go semantics given to its mini-language in lean/Cog/OMap/Src.lean (map index/comma-ok/delete, slice index and make panics, range/continue/return, pure callbacks, unaliased local New(), same-type method calls Set/Len taken from the model, sort.SliceStable = the model's merge sort)",
         "Go map modelled as association list accessed by key only; sort.SliceStable modelled as List.mergeSort (unique result for strict weak orders; harness less-functions are strict weak orders)",
         "encoding/json tokenisation of keys/ints (MarshalJSON bytes are decoded with an order-preserving token reader before comparison)",
         "the Go reference map in harness/omap.go (oracle) and the line-protocol driver lean/Cog/Drv/OMapDrv.lean",
     ]
     hb, err = build_go("verifharness", "harness", files=HARNESS_BASE + ["omap.go"], tag="c19")
     c.oblige("harness builds against /repo working tree", hb is not None, err)
-    c.lean_obligations(THEOREMS)
+    tied = source_tie(c)
+    if tied:
+        c.lean_obligations(THEOREMS + SRC_THEOREMS)
+    else:
+        # Cog.Gen.OMapSrc is stale: the source theorems are not discharged for this tree; the
+        # correspondence streams below are the search for a concrete failing op sequence
+        c.lean_obligations(THEOREMS)
+        for t in SRC_THEOREMS:
+            c.oblige("theorem " + t, False, "translator refused: generated program is stale")
     if hb is None:
         c.finish("lake build && lake env lean <audit>", "n/a")
     if c.replay:
